@@ -6,6 +6,9 @@ lines = ["### 11.7 Per property: what is proved, what is only tied or explored (
 for pid in sorted(o):
     e = o[pid]
     lines.append("**%s** — %d audited theorems (%s …). %s" % (pid, len(e["theorems"]), ", ".join(t.split(".")[-1] for t in e["theorems"][:6]), e["level_text"]))
+    if e.get("definitional"):
+        d = e["definitional"]
+        lines.append("  *True by construction of the model (not counted as evidence on their own):* " + ", ".join(t.split(".")[-1] for t in d["theorems"]) + " — " + d["note"] + ".")
     if e.get("partial"):
         lines.append("  *Partial:* " + e["partial"] + ".")
     if e.get("assumptions"):
